@@ -45,6 +45,9 @@ type c11Case struct {
 	// EncMask (ValidateEncodedResponse level, 0 = one assertion, encrypted): a Response with two
 	// assertions of which the first (1), the second (2) or both (3) are encrypted
 	EncMask int `json:"enc_mask,omitempty"`
+	// Mixed (with EncMask 3): the two encrypted assertions differ in EncryptedKey placement and
+	// OAEP digest (1: inline+sha256 then detached+default, 2: the reverse)
+	Mixed int `json:"mixed,omitempty"`
 }
 
 func c11Plain(n, tail int) []byte {
@@ -148,7 +151,15 @@ func c11Exec(c c11Case) (keys []string, detail, class string) {
 			for len(pt)%16 != c.Len%16 {
 				pt = append(pt, ' ')
 			}
-			ea := idp.EncryptPlaintext(pt, c11EncSpec(c, toKey))
+			es := c11EncSpec(c, toKey)
+			if c.Mixed != 0 {
+				first := (i == 0) == (c.Mixed == 1)
+				es.KeyAlg, es.Digest, es.Placement = idp.OAEPMGF1P, "", "detached"
+				if first {
+					es.Digest, es.Placement = idp.EncDigSHA256, ""
+				}
+			}
+			ea := idp.EncryptPlaintext(pt, es)
 			idx := as.Index()
 			doc.Root().RemoveChildAt(idx)
 			doc.Root().InsertChildAt(idx, ea)
@@ -201,6 +212,24 @@ func c11Exec(c c11Case) (keys []string, detail, class string) {
 		}
 		if oracle.FromResponse(resp2).Key() != b.Key() {
 			return []string{"C11/ValidateEncodedResponse/after-field-key-roll-over/data-differs-from-twin"}, detail, "TWIN-DIFFERS"
+		}
+	}
+	// the *KeyStore given to the setter updated in place by its owner (same pointer, new key and
+	// certificate) on the instance that has already decrypted
+	if c.KeyCfg == "setter" && c.EncMask == 0 {
+		sp := world.SPConf{Store: []string{"K1"}, EncField: "-"}.Build()
+		ks := world.SetterKeyStore("KS")
+		sp.SetSPKeyStore(ks)
+		validateResponse(sp, mk(true))
+		*ks = *world.SetterKeyStore("KX")
+		toKey = "KX"
+		resp3, r3 := validateResponse(sp, mk(true))
+		toKey = "KS"
+		if !r3.Accepted() {
+			return []string{"C11/ValidateEncodedResponse/after-keystore-updated-in-place/encrypted-rejected-but-twin-accepted"}, detail + fmt.Sprintf(" | after the KeyStore given to SetSPKeyStore was updated in place: accepted=%v err=%q panic=%q", r3.Accepted(), r3.Err.Text, r3.Panic), "TWIN-DIFFERS"
+		}
+		if oracle.FromResponse(resp3).Key() != b.Key() {
+			return []string{"C11/ValidateEncodedResponse/after-keystore-updated-in-place/data-differs-from-twin"}, detail, "TWIN-DIFFERS"
 		}
 	}
 	return nil, detail, "twin-equal/" + c.KeyCfg
@@ -289,6 +318,10 @@ func c11Cases(thorough bool) (cases []c11Case, n1 int) {
 			for _, alg := range []int{0, 3} {
 				for _, kc := range []string{"field", "setter"} {
 					cases = append(cases, c11Case{Level: "ValidateEncodedResponse", DataAlg: alg, KeyCfg: kc, Signed: signed, Len: 1, EncMask: mask})
+					if mask == 3 {
+						cases = append(cases, c11Case{Level: "ValidateEncodedResponse", DataAlg: alg, KeyCfg: kc, Signed: signed, Len: 1, EncMask: 3, Mixed: 1},
+							c11Case{Level: "ValidateEncodedResponse", DataAlg: alg, KeyCfg: kc, Signed: signed, Len: 1, EncMask: 3, Mixed: 2})
+					}
 				}
 			}
 		}
@@ -297,7 +330,7 @@ func c11Cases(thorough bool) (cases []c11Case, n1 int) {
 }
 
 func c11Run(r *mc.Run) {
-	r.Rule = "DecryptBytes level: full product data algorithm(5) x key transport/digest(9: OAEP-MGF1P and OAEP 1.1 with digest absent/sha1/sha256/sha512, RSA 1.5) x EncryptedKey placement(2) x recipient certificate(2) x plaintext length 0..48 (and 255..257, 4095..4097, 65535..65537, 1 MiB + 1) x tail(4: non-zero, 1, 2, 16 zero bytes) x CBC pad fill(3: zero, PKCS#7, 0xff), oracle = an independent XML-Enc encryptor (idp/enc.go): decrypted bytes = plaintext exactly; ValidateEncodedResponse level: 45 combinations x 16 residues mod 16 x placement(2) x signing(2) x 5 key configurations (field, setter, both same, both different, field holding a key store of a custom type), plus Responses with two assertions of which the first, the second or both are encrypted (2 algorithms x 2 key configurations x 2 signing placements), oracle = plaintext twin (same outcome, same data in the same order, same summary); field-configured keys are also rolled over on the used instance. non-trivial = decryption reached the symmetric step; distinct = distinct case"
+	r.Rule = "DecryptBytes level: full product data algorithm(5) x key transport/digest(9: OAEP-MGF1P and OAEP 1.1 with digest absent/sha1/sha256/sha512, RSA 1.5) x EncryptedKey placement(2) x recipient certificate(2) x plaintext length 0..48 (and 255..257, 4095..4097, 65535..65537, 1 MiB + 1) x tail(4: non-zero, 1, 2, 16 zero bytes) x CBC pad fill(3: zero, PKCS#7, 0xff), oracle = an independent XML-Enc encryptor (idp/enc.go): decrypted bytes = plaintext exactly; ValidateEncodedResponse level: 45 combinations x 16 residues mod 16 x placement(2) x signing(2) x 5 key configurations (field, setter, both same, both different, field holding a key store of a custom type), plus Responses with two assertions of which the first, the second or both are encrypted (2 algorithms x 2 key configurations x 2 signing placements), oracle = plaintext twin (same outcome, same data in the same order, same summary); field-configured keys are also rolled over on the used instance, a setter-configured KeyStore is also updated in place; two encrypted assertions also with different key placement and digest. non-trivial = decryption reached the symmetric step; distinct = distinct case"
 	r.Assume("for non-default OAEP digests MGF1 uses the same hash (the reading under which the library's exported identifiers interoperate with itself)")
 	cases, n1 := c11Cases(r.Thorough())
 	r.Set("decryptbytes_cases", n1)
